@@ -13,6 +13,7 @@ package main
 //        <i>t       RestoreChunk(i) with the file truncated
 //        A          abort and restart the whole restore (AbortRestore + AbortMultipartInsert)
 //   restorec BACKEND N SEED         N goroutines restore all chunks concurrently, each in its own order
+//   raceabort I J                   RestoreChunk(I) is in flight while RestoreChunk(J) (bad proof) aborts the restore
 //   badproof I KIND                 metadata lists the digest of a re-encoded, altered chunk I
 //                                   (right digest, wrong proof): must fail verification, import nothing
 
@@ -356,6 +357,83 @@ func (c *c12Runner) runRestoreConcurrent(backend string, workers int, seed uint6
 	c.res.Count("restore:concurrent-complete")
 }
 
+// gateReader blocks its first Read until the gate opens; `entered` is closed when that Read starts
+// (the caller is then past phase 1 of RestoreChunk and inside restoreChunk).
+type gateReader struct {
+	r       io.Reader
+	gate    chan struct{}
+	entered chan struct{}
+	once    bool
+}
+
+func (g *gateReader) Read(p []byte) (int, error) {
+	if !g.once {
+		g.once = true
+		close(g.entered)
+		<-g.gate
+	}
+	return g.r.Read(p)
+}
+
+// runRaceAbort: caller A is between the two phases of RestoreChunk(i) when caller B's chunk j (right
+// digest in the metadata, wrong proof) fails verification, which aborts the restore. A must not report
+// completion: most chunks were never restored.
+func (c *c12Runner) runRaceAbort(i, j int) {
+	if c.cp == nil || c.deep || len(c.cp.chunks) < 2 {
+		return
+	}
+	s := c.srv
+	cd := c.cp
+	i = i % len(cd.chunks)
+	j = j % len(cd.chunks)
+	if i == j {
+		j = (i + 1) % len(cd.chunks)
+	}
+	raw, digest := encodeChunk([][]byte{{0x07, 0x07}})
+	meta := *cd.meta
+	meta.Chunks = append([]hash.Hash{}, cd.meta.Chunks...)
+	meta.Chunks[j] = digest
+	ndb := openDB("badgermem", "")
+	defer ndb.Close()
+	rs, _ := checkpoint.NewRestorer(ndb)
+	if err := ndb.StartMultipartInsert(s.root.Version); err != nil {
+		panic(err)
+	}
+	if err := rs.StartRestore(ctx, &meta); err != nil {
+		panic(err)
+	}
+	c.res.Count("raceabort")
+	g := &gateReader{r: bytes.NewReader(cd.chunks[i]), gate: make(chan struct{}), entered: make(chan struct{})}
+	type result struct {
+		done bool
+		err  error
+	}
+	ch := make(chan result, 1)
+	go func() {
+		defer func() {
+			if rec := recover(); rec != nil {
+				ch <- result{false, fmt.Errorf("PANIC: %v", rec)}
+			}
+		}()
+		d, e := rs.RestoreChunk(ctx, uint64(i), g)
+		ch <- result{d, e}
+	}()
+	<-g.entered
+	_, errB := rs.RestoreChunk(ctx, uint64(j), bytes.NewReader(raw))
+	if !errors.Is(errB, checkpoint.ErrChunkProofVerificationFailed) {
+		close(g.gate)
+		<-ch
+		c.fail("spec", "spec-bad-proof-error-kind", fmt.Sprintf("raceabort: bad-proof chunk %d: %v", j, errB))
+		return
+	}
+	close(g.gate)
+	a := <-ch
+	if a.done {
+		c.fail("spec", "restorer-done-after-concurrent-abort",
+			fmt.Sprintf("RestoreChunk(%d) returned done=true, err=%v although the restore had been aborted by the proof failure of a concurrent RestoreChunk(%d) and only 1 of %d chunks was restored (restorer.go phase 2 does not re-check the restore in progress)", i, a.err, j, len(cd.chunks)))
+	}
+}
+
 func (c *c12Runner) runRestore(backend string, steps []string) {
 	if c.cp == nil {
 		return
@@ -673,6 +751,8 @@ func runCaseC12(lines []string, res *hlib.Result) (fails []hlib.Failure, nlines 
 				c.runRestore(w[1], strings.Split(w[2], ","))
 			case "badproof":
 				c.runBadProof(atoi(w[1]), w[2])
+			case "raceabort":
+				c.runRaceAbort(atoi(w[1]), atoi(w[2]))
 			case "restorec":
 				c.runRestoreConcurrent(w[1], atoi(w[2]), uint64(atoi(w[3])))
 			}
@@ -774,6 +854,9 @@ func genCaseC12(r *hlib.Rng, res *hlib.Result, i int, big int) []string {
 		}
 		if r.Chance(1, 3) {
 			lines = append(lines, fmt.Sprintf("restorec %s %d %d", backends[r.Intn(len(backends))], 2+r.Intn(5), r.Next()>>2))
+		}
+		if r.Chance(1, 4) {
+			lines = append(lines, fmt.Sprintf("raceabort %d %d", r.Intn(40), r.Intn(40)))
 		}
 		if r.Chance(1, 2) {
 			lines = append(lines, fmt.Sprintf("badproof %d %s", r.Intn(40), []string{"value", "drop", "hash", "garbage"}[r.Intn(4)]))
